@@ -156,7 +156,7 @@ fn documented_source(l: &Layout) -> String {
 }
 
 pub fn corpus_c18(tier: Tier, seed: u64) -> Vec<Layout> {
-    let n = tier.pick(200usize, 2000usize);
+    let n = tier.pick(300usize, 2400usize);
     let mut v = Vec::new();
     let mut p = Profile::general();
     p.kinds = [3, 5, 3, 3, 2, 2, 2];
@@ -362,15 +362,13 @@ pub fn expand_text(dir: &std::path::Path, crate_name: &str) -> Result<String, St
     Ok(String::from_utf8_lossy(&out.stdout).to_string())
 }
 
-pub fn replay(rc: &RunCtx, doc: &Value, path: &str) -> ! {
+pub fn replay_doc(rc: &RunCtx, doc: &Value) -> Result<(), String> {
     let src = doc["source"].as_str().unwrap_or_else(|| inconclusive("replay without source"));
     let kind = doc["kind"].as_str().unwrap_or("");
     if kind == "regime" {
         let iso = check_isolated_opts(rc, src, true, true);
         if !iso.is_empty() {
-            println!("# still fails: {:?}", iso.first());
-            println!("VIOLATION property=C18 replay={}", path);
-            std::process::exit(1);
+            return Err(format!("still fails: {:?}", iso.first()));
         }
     } else {
         let dir = rc.work.join("r-replay");
@@ -381,12 +379,9 @@ pub fn replay(rc: &RunCtx, doc: &Value, path: &str) -> ! {
         let mut pm = BTreeMap::new();
         scan_stream(ts, "crate", &mut scan, &mut pm);
         if !scan.unsafe_tokens.is_empty() || !scan.foreign_paths.is_empty() {
-            println!("# still fails: {:?} {:?}", scan.unsafe_tokens.first(), scan.foreign_paths.first());
-            println!("VIOLATION property=C18 replay={}", path);
-            std::process::exit(1);
+            return Err(format!("still fails: {:?} {:?}", scan.unsafe_tokens.first(), scan.foreign_paths.first()));
         }
     }
     let _ = V_PRELUDE;
-    println!("REPLAY-PASS property=C18 file={} (the recorded case no longer fails)", path);
-    std::process::exit(0);
+    Ok(())
 }
